@@ -188,7 +188,7 @@ func (P *Program) runInstance(inst *Instance, sol *Solver) *InstanceResult {
 			e.known[k] = true
 		}
 		sol.log = sol.log[:0]
-		sol.tacticOff = false
+		sol.tacticOff = inst.Relaxed || inst.Opaque // the bit-vector tactic does not apply to real arithmetic
 		sol.Send("(push 1)")
 		status := P.runPath(e, fn)
 		sol.Send("(pop 1)")
